@@ -46,4 +46,13 @@ theorem unquoted_key_collides :
 /-- Non-vacuity / sanity: the model's `%q` on a string with a quote, a backslash, a newline and a NUL. -/
 example : quote [97, 34, 92, 10, 0] = [34, 97, 92, 34, 92, 92, 92, 110, 92, 120, 48, 48, 34] := by decide
 
+/-- The two key spaces are disjoint as well: a stored *request* is never read back as a *response* (or vice versa),
+    whatever backend and request IDs are involved — the regenerated formats differ in their second byte. -/
+theorem request_and_response_keys_disjoint (fq fp : Fmt2)
+    (hq : parse2 cache_requestKeyFormat = some fq) (hp : parse2 cache_responseKeyFormat = some fp)
+    (b r b' r' : Bytes) : fq.key b r ≠ fp.key b' r' := by
+  obtain ⟨h1, h2⟩ := source_formats_quote
+  rw [h1] at hq; rw [h2] at hp; cases hq; cases hp
+  simp [Fmt2.key]
+
 end InvProxy.C17b
